@@ -155,6 +155,7 @@ type loopInfo struct {
 	ord    int
 	spec   *LoopSpec
 	phiVars map[string]*ssa.Phi
+	allocEntry string       // $alloc when the loop was entered (for `assigns \local`)
 	mod    map[string]bool // heap families the loop body modifies (from the dry run); nil before the header was processed
 	modAll bool
 }
